@@ -56,8 +56,8 @@ ASSUMPTIONS = [
     "textual arguments of nsec3_hash are ASCII in the model (str.upper of non-ASCII letters, IDNA are outside it)",
     "recorded findings still in the tree: Chaosnet A lower-cased; unimplemented RFC 4034 §6.2 types opaque; NSEC bitmap "
     "of a delegation point announces non-authoritative types (model parameter NsecConsts.cutTypes); "
-    "dnskey_rdataset_to_cdnskey_rdataset yields DNSKEY-typed records; make_ds_rdataset yields a CDS-typed rdataset for "
-    "DNSKEY input",
+    "dnskey_rdataset_to_cdnskey_rdataset yields DNSKEY-typed records (not repaired: an upstream test pins the wrong type); "
+    "make_ds_rdataset typing DNSKEY input as CDS was repaired in ff90ef6 and DS is the reference",
     "argument spellings of make_ds and the DS/CDS/CDNSKEY rdataset helpers, verify_digest() from the zone's own ZONEMD "
     "RRset, sign_zone's txn= / add_dnskey / nsec3= routes, NSEC TTL and class are checked by the reference oracle only "
     "(no model)",
@@ -1184,8 +1184,8 @@ def eval_dsargs(ctx, c, rep):
     if sorted(x.to_wire() for x in v8) != wants8 or v8.ttl != c["ttl"]:
         ctx.fail("C15/make_ds_rdataset/from-dnskey/value-differs", f"{[x.to_wire().hex() for x in v8]}", rep)
         return
-    # ... and (finding) the DS type
-    if int(v8.rdtype) != DS:
+    # ... and the DS type, records included (repaired in dnspython commit ff90ef6; regression witness in corpus/C15/N5-…)
+    if int(v8.rdtype) != DS or any(int(x.rdtype) != DS for x in v8):
         ctx.fail("C15/make_ds_rdataset/from-dnskey/result-typed-cds", f"make_ds_rdataset(DNSKEY rdataset) returns an rdataset of type {int(v8.rdtype)} (CDS), not DS (43)", rep)
     if kty == DNSKEY:
         ck = dns.dnssec.dnskey_rdataset_to_cdnskey_rdataset(krds)
